@@ -113,6 +113,10 @@ def impl_views(layers):
     _, e, _ = cc.guarded(go, timeout=20)
     if e is not None:
         return ("error", "OdxError" if isinstance(e, OdxError) else type(e).__name__, str(e)[:200]), db
+    return views_of_db(db), db
+
+
+def views_of_db(db):
     out = {c: {} for c in CATS}
     out["services"], out["jobs"], out["unit_groups"] = {}, {}, {}
     for dl in db.diag_layers:
@@ -128,7 +132,44 @@ def impl_views(layers):
                                    getattr(dl, "functional_classes", dl.diag_layer_raw.functional_classes)]
         out["audiences"][i] = [[int(o.short_name[1:]), src_of(o)] for o in
                                getattr(dl, "additional_audiences", dl.diag_layer_raw.additional_audiences)]
-    return out, db
+    return out
+
+
+def check_refresh_history(ck, layers, db):
+    """the views depend on the hierarchy as it is now, not on what an earlier refresh() saw: a PARENT-REF is removed from
+    the live database, then put back; after each refresh() the views are those which inheritance prescribes"""
+    import copy
+    cands = [L for L in layers if L["parents"]]
+    if not cands:
+        return
+    L = cands[len(json.dumps(layers)) % len(cands)]
+    dl = next(d for d in db.diag_layers if d.short_name == f"L{L['id']}")
+    prefs = dl.diag_layer_raw.parent_refs
+    removed = prefs.pop()
+    mod = copy.deepcopy(layers)
+    ml = next(x for x in mod if x["id"] == L["id"])
+    gone = ml["parents"].pop()
+    for step, (lay, undo) in enumerate(((mod, False), (layers, True))):
+        if undo:
+            prefs.append(removed)
+        specs = {cat: spec_visible(lay, cat) for cat in CATS}
+        if any(v == "conflict" for cat in CATS for v in specs[cat]) or any(v == "conflict" for v in spec_visible_ug(lay)):
+            if not undo:
+                continue
+            return
+        _, e, _ = cc.guarded(db.refresh, timeout=20)
+        ck.count(("refresh-history", json.dumps(layers), step))
+        rep = {"layers": layers, "history": f"PARENT-REF of L{L['id']} to L{gone['target']} removed" + (", then put back" if undo else "") + "; refresh()"}
+        if e is not None:
+            ck.violation(f"{rep['history']}: refresh raised {type(e).__name__}: {e}", rep)
+            return
+        views = views_of_db(db)
+        for cat in CATS:
+            for X in lay:
+                got, want = views[cat][X["id"]], specs[cat][X["id"]]
+                if {n: s for n, s in got} != want or len(got) != len(want):
+                    ck.violation(f"{rep['history']}: layer L{X['id']} sees {cat} {got}, inheritance prescribes {sorted(want.items())}", rep)
+                    return
 
 
 def w_hier(layers, cat):
@@ -324,6 +365,12 @@ def main(argv=None):
                                      dict(rep, impl=views[cat][L["id"]], model=m, broken="correspondence Inherit.avail"),
                                      found_input=False)
                         break
+        if hi % 3 == 0 or not quick:
+            nv = len(ck.violations)
+            check_refresh_history(ck, layers, db)
+            if len(ck.violations) > nv:
+                continue
+            # (the live database is back in its original state)
         # behaviour: an inherited service decodes on the inheriting layer
         for dl in db.diag_layers:
             for svc in dl.services:
